@@ -150,11 +150,14 @@ pub fn run(ctx: &Ctx) -> Outcome {
         let ndev = (4 * par + 3).max(19);
         let kdev: usize = tier.pick(2, 3);
         let nbfs = tier.pick(24, 64).max(ndev);
+        // very long single calls (33 and 65 blocks) for small blocks
+        let very_long: Vec<usize> = if bs <= 16 { vec![33, 65] } else { vec![] };
+        let ndata = nbfs.max(very_long.iter().copied().max().unwrap_or(0));
         for fe in block_frontends(cfg, fam, *dir) {
             let g = fe.gran;
-            let pre = dirty(nbfs * g + 2 * g);
+            let pre = dirty(ndata * g + 2 * g);
             for (ivn, iv) in iv_variants(seed, iv_len).into_iter().skip(tier.pick(2, 1)) {
-                for (dn, data) in data_variants(seed, 0xC07, (nbfs + 2) * g).into_iter().skip(tier.pick(2, 1)) {
+                for (dn, data) in data_variants(seed, 0xC07, (ndata + 2) * g).into_iter().skip(tier.pick(2, 1)) {
                     let want = fam_ref(cfg, fam, *dir, key, &iv, &data, g);
                     rep.outcome(&want.out);
                     for st in &want.states {
@@ -204,6 +207,15 @@ pub fn run(ctx: &Ctx) -> Outcome {
                         }
                     }
                     rep.count("deviation_schedules", 2 * cuts_sets.len() as u64);
+                    // (2c) very long single calls, also preceded / followed by a single block
+                    for &n in &very_long {
+                        for pieces in [vec![P { len: n * g, kind: Kind::InPlace, single: false }], vec![P { len: g, kind: Kind::InPlace, single: true }, P { len: (n - 1) * g, kind: Kind::B2b, single: false }], vec![P { len: (n - 1) * g, kind: Kind::InPlace, single: false }, P { len: g, kind: Kind::B2b, single: true }]] {
+                            rep.case(|| {
+                                let got = (fe.run)(key, &iv, &data[..n * g], &pieces, &pre)?;
+                                check_against(&fe, &got, &want, &pieces, &format!("n={n} (very long call);"))
+                            });
+                        }
+                    }
                     // (3) merged BFS over call sizes
                     let mut sizes = vec![0, 1, 2, par.saturating_sub(1), par, par + 1, 2 * par, 2 * par + 1, 3 * par + 1, 8, 9, 16, 17];
                     sizes.sort();
